@@ -12,6 +12,7 @@ func init() {
 	vfHarnesses["C11_box_lemmas"] = vfhC11BoxLemmas
 	vfHarnesses["C11_range_search"] = vfhC11RangeSearch
 	vfHarnesses["C11_range_search_5"] = vfhC11RangeSearch5
+	vfHarnesses["C11_stop_two_level"] = vfhC11StopTwoLevel
 	vfHarnesses["C11_bulk_shape"] = vfhC11BulkShape
 }
 
@@ -168,6 +169,48 @@ func vfhC11BulkShape() {
 	walk(t.root, true)
 	for i := range seen {
 		vfAssert(seen[i] == 1, "every record in exactly one leaf")
+	}
+	vfReach("end")
+}
+
+// C11: a two-level tree (5 or 6 records); the callback returns Stop (plain or
+// wrapped) at the k-th invocation, k symbolic: it is never invoked again and
+// the search returns nil.
+func vfhC11StopTwoLevel() {
+	n := vfInt("n", 5, 6)
+	items := make([]BulkItem, n)
+	for i := range items {
+		// boxes in a row: Y extent fixed, X centres strictly increasing (this
+		// pins the partition order; the general layout is C11_range_search_5)
+		b := Box{MinX: vfLattice("minx", 10), MinY: 0, MaxX: vfLattice("maxx", 10), MaxY: 1}
+		vfAssume(b.MinX <= b.MaxX)
+		if i > 0 {
+			p := items[i-1].Box
+			vfAssume(p.MinX+p.MaxX < b.MinX+b.MaxX)
+		}
+		items[i] = BulkItem{Box: b, RecordID: i}
+	}
+	q := vfBoxL("q")
+	t := BulkLoad(items)
+	k := vfInt("k", 0, 5)
+	wrapped := vfBool("wrapped")
+	calls := 0
+	stopped := false
+	err := t.RangeSearch(q, func(id int) error {
+		vfAssert(!stopped, "callback invoked again after it returned Stop")
+		if calls == k {
+			stopped = true
+			if wrapped {
+				return fmt.Errorf("wrapped: %w", Stop)
+			}
+			return Stop
+		}
+		calls++
+		return nil
+	})
+	vfAssert(err == nil, "Stop surfaces as nil")
+	if stopped {
+		vfReach("stopped")
 	}
 	vfReach("end")
 }
